@@ -235,7 +235,16 @@ def run(ctx):
                 if isinstance(n, ast.Name) and prog.resolve_global(base, n.id) is not None and n.id not in func_params(eq):
                     gname = n.id
     if gname is None:
-        raise AnalysisError("R12.5: cannot identify the configuration global read by __eq__")
+        # __eq__ passes nothing to _pack: fall back to the global the setter declares, then to the one the scope saves
+        for n in walk_no_nested(setter):
+            if isinstance(n, ast.Global):
+                gname = n.names[0]
+    if gname is None:
+        for st in walk_no_nested(cmgr):
+            if isinstance(st, ast.Assign) and isinstance(st.value, ast.Name) and prog.resolve_global(base, st.value.id) is not None:
+                gname = st.value.id
+    if gname is None:
+        raise AnalysisError("R12.5: cannot identify the ignored-fields configuration global")
     declares = any(isinstance(n, ast.Global) and gname in n.names for n in walk_no_nested(setter))
     rebinds = [st for st in walk_no_nested(setter) if declares and isinstance(st, ast.Assign) and any(isinstance(t, ast.Name) and t.id == gname for t in st.targets)]
     fresh = bool(rebinds) and all(isinstance(st.value, ast.Call) and call_name(st.value) in ("set", "frozenset", "tuple", "list") or
